@@ -43,15 +43,22 @@ COMPONENTS = [".", "..", "in.bin", "sub", "sub/in2.bin", "", "link_in", "link_ou
               # symbolic links that stay inside the base but end at a hard-linked file, and chains of links
               "link_hard_in", "link_hard_out", "link_chain", "link_chain_hard", "sub/link_up_hard", "dlink_in/link_up_hard",
               # the sibling directory whose name has the base's name as a prefix, reached directly and through links
-              "../base_evil/evil.bin", "link_evil", "dlink_evil/evil.bin", "sub/../../base_evil/evil.bin"]
-BASES = ["abs", "rel", "abs_slash", "via_symlink", "dotdot", "dot", "rel_dotslash", "abs_unnorm"]
+              "../base_evil/evil.bin", "link_evil", "dlink_evil/evil.bin", "sub/../../base_evil/evil.bin",
+              "in2.bin", "sub/../in.bin", "swap.bin", "sub/../swap.bin"]
+# "abs_sub": the base is the sub-directory base/sub, so that the rest of base/ lies outside
+BASES = ["abs", "rel", "abs_slash", "via_symlink", "dotdot", "dot", "rel_dotslash", "abs_unnorm", "abs_sub"]
 ENTRIES = ["numpy", "__array__", "tobytes", "tofile_bytesio", "tofile_file", "lazy", "load_to_model", "save"]
 # where the external tensor sits in the loaded model
 WHERES = ["main_initializer", "subgraph_initializer", "depth2_subgraph_initializer", "constant_attr_main", "constant_attr_subgraph",
           "constant_attr_depth2", "constant_attr_function", "tensors_attr_subgraph"]
 PRE = ["none", "numpy", "tobytes", "__array__", "numpy_then_release"]
 HARMLESS = b"HARMLESS" * 2
-LOADS = ["bare", "dot_slash", "rel_dotdot", "absolute", "via_symlink_dir", "rel_subdir", "symlink_dir_dotdot_abs", "symlink_dir_dotdot_rel"]
+LOADS = ["bare", "dot_slash", "rel_dotdot", "absolute", "via_symlink_dir", "rel_subdir", "symlink_dir_dotdot_abs", "symlink_dir_dotdot_rel",
+         # the model file itself is a symbolic link whose target lies in the decoy directory (content-addressed cache layout)
+         "model_file_symlink", "model_file_symlink_rel"]
+FOCUS = [(["swap.bin"], "abs"), (["sub/../swap.bin"], "abs"), (["..", "in.bin"], "abs_sub"), (["..", "swap.bin"], "abs_sub"), (["in.bin"], "abs"),
+         (["sub/in2.bin"], "via_symlink")]
+SWAPS = ["none", "symlink_out", "hardlink_out", "symlink_in"]
 
 
 def strategy(tier, phase):
@@ -60,9 +67,22 @@ def strategy(tier, phase):
     comp = st.integers(0, len(COMPONENTS) - 1)
     read = st.fixed_dictionaries({"mode": st.just("read"), "loc": st.lists(comp, min_size=1, max_size=4), "base": st.integers(0, len(BASES) - 1),
                                   "entry": st.integers(0, len(ENTRIES) - 1), "offset": st.sampled_from([0, 0, 2]),
-                                  "pre": st.sampled_from([0, 0, 1, 2, 3, 4])})
+                                  "pre": st.sampled_from([0, 0, 1, 2, 3, 4]),
+                                  # history in one process: earlier reads (each judged like the main one), a change of the file
+                                  # system between them and the main read, and further reads of the same tensor object afterwards
+                                  # a warm-up is [location components, base, entry] or ["twin", variant, entry]: the main read's own
+                                  # location and base (variant 0), or the same joined path string split differently between base
+                                  # and location (variant 1: what a string was accepted as under one base says nothing under another)
+                                  "warm": st.lists(st.one_of(st.tuples(st.lists(comp, min_size=1, max_size=3), st.integers(0, len(BASES) - 1), st.integers(0, 4)).map(list),
+                                                             st.tuples(st.just("twin"), st.integers(0, 1), st.integers(0, 4)).map(list)), max_size=2),
+                                  # focus: the main read aims at a file that the history can make forbidden (swap.bin) or that lies
+                                  # just outside a deeper base
+                                  "focus": st.sampled_from([None, None, None, 0, 1, 2, 3, 4, 5]),
+                                  "swap": st.sampled_from([0, 0, 0, 1, 2, 3]),
+                                  "again": st.lists(st.integers(0, 4), max_size=2)})
     load = st.fixed_dictionaries({"mode": st.just("load"), "loc": st.lists(comp, min_size=1, max_size=4), "how": st.integers(0, len(LOADS) - 1),
-                                  "entry": st.integers(0, 4), "offset": st.sampled_from([0, 2]), "where": st.integers(0, len(WHERES) - 1)})
+                                  "entry": st.integers(0, 4), "offset": st.sampled_from([0, 2]), "where": st.integers(0, len(WHERES) - 1),
+                                  "again": st.lists(st.integers(0, 4), max_size=2)})
     return st.one_of(read, read, load)
 
 
@@ -80,6 +100,7 @@ def make_tree(root):
         os.path.join(root, "outside", "odir", "deep.bin"): b"CANARY-D" * 2,
         os.path.join(root, "base_evil", "evil.bin"): b"CANARY-E" * 2,
         os.path.join(root, "canary.bin"): b"CANARY-R" * 2,
+        os.path.join(base, "swap.bin"): b"INSIDE-S" * 2,
     }
     for p, data in files.items():
         with open(p, "wb") as f:
@@ -145,6 +166,8 @@ def base_spelling(kind, root, base):
         return "."
     if k == "rel_dotslash":
         return "./" + os.path.relpath(base, os.getcwd())
+    if k == "abs_sub":
+        return os.path.join(base, "sub")
     return base.replace("/base", "//base/./")
 
 
@@ -222,6 +245,10 @@ def execute(case):
     try:
         base = make_tree(root)
         os.chdir(root)
+        if mode == "read" and case.get("focus") is not None:
+            fl, fb = FOCUS[case["focus"] % len(FOCUS)]
+            case = dict(case, loc=[COMPONENTS.index(c) for c in fl], base=BASES.index(fb))
+            classes.append("focused_main_read")
         tmp = os.path.join(root, "scratch")
         os.makedirs(tmp)
         loc = location_of(case, root, base)
@@ -237,9 +264,63 @@ def execute(case):
                     canaries[p] = open(p, "rb").read()
                 except OSError:
                     pass
+        def judge(got, loc, eff_abs, label, site, availability=False):
+            allowed, resolved = oracle_allowed(eff_abs, loc)
+            if got is not None and len(got) > 0 and got[:length] == HARMLESS[off: off + length]:
+                classes.append("bytes_of_the_earlier_harmless_base")  # cached from the first, legitimate read: not an escape
+            elif got is not None and len(got) > 0:
+                if not allowed:
+                    which = [p for p, data in canaries.items() if data[off: off + length] == got[:length]]
+                    where = "outside" if which and not which[0].startswith(os.path.realpath(eff_abs) + os.sep) else "inside-but-forbidden"
+                    kind = _why(eff_abs, loc, resolved)
+                    fails.append((f"escape/{site}/{kind}", f"{label}: location {loc!r} with base {eff_abs!r} returned bytes {got[:16]!r} of {which[:1]} ({where}); resolved target {resolved}"))
+                else:
+                    exp = open(resolved, "rb").read()[off: off + length]
+                    if got[:length] != exp:
+                        fails.append(("wrong-bytes" if site in ("read", "load") else f"wrong-bytes/{site}", f"{label}: location {loc!r}: returned {got[:16]!r} but the file holds {exp!r}"))
+            if availability and got is None and allowed and not (not os.path.normpath(os.path.join(base, loc)).startswith(base + os.sep) or os.path.isabs(loc)):
+                if loc in ("in.bin", "sub/in2.bin", "./in.bin", "sub/../in.bin") and os.path.realpath(eff_abs) == base:
+                    fails.append(("availability/plain-inside-file-rejected", f"{label}: readable inside file {loc!r} (base {eff_abs!r}) was rejected"))
+            return allowed, resolved
+
         if mode == "read":
             if BASES[case["base"] % len(BASES)] == "dot":
                 os.chdir(base)
+            # earlier reads in the same process, each one a read like any other
+            for wi, w in enumerate(case.get("warm") or []):
+                if w[0] == "twin":
+                    wloc, wbd = location_of(case, root, base), base_spelling(case["base"], root, base)
+                    if w[1] % 2 == 1 and os.path.abspath(wbd) == os.path.join(base, "sub") and not os.path.isabs(wloc):
+                        wloc, wbd = "sub/" + wloc, base
+                    elif w[1] % 2 == 1 and os.path.abspath(wbd) == base and wloc.startswith("sub/"):
+                        wloc, wbd = wloc[4:], os.path.join(base, "sub")
+                    classes.append("earlier_read_of_the_same_path_string")
+                else:
+                    wloc = location_of({"loc": w[0]}, root, base)
+                    wbd = base_spelling(w[1], root, base)
+                wt = ir.ExternalTensor(wloc, off, length, ir.DataType.UINT8, shape=ir.Shape([length]), name=f"warm{wi}", base_dir=wbd)
+                wgot = None
+                try:
+                    wgot = read_via(ir, wt, w[2] % 5, tmp)
+                    classes.append("earlier_read_returned")
+                except Exception:
+                    classes.append("earlier_read_raised")
+                judge(wgot, wloc, os.path.abspath(wbd), f"earlier read #{wi} via {ENTRIES[w[2] % 5]}", "earlier-read")
+                try:
+                    wt.release()
+                except Exception:
+                    pass
+            swap = SWAPS[case.get("swap", 0) % len(SWAPS)]
+            if swap != "none":
+                sp = os.path.join(base, "swap.bin")
+                os.unlink(sp)
+                if swap == "symlink_out":
+                    os.symlink(os.path.join("..", "outside", "canary.bin"), sp)
+                elif swap == "hardlink_out":
+                    os.link(os.path.join(root, "outside", "odir", "deep.bin"), sp)
+                else:
+                    os.symlink("in.bin", sp)
+                classes.append("file_replaced_between_reads:" + swap)
             bd = base_spelling(case["base"], root, base)
             pre = PRE[case.get("pre", 0) % len(PRE)]
             if pre == "none":
@@ -307,6 +388,15 @@ def execute(case):
             elif how == "symlink_dir_dotdot_rel":
                 os.chdir(root)
                 arg = os.path.join("work", "into_sub", "..", "model.onnx")
+            elif how in ("model_file_symlink", "model_file_symlink_rel"):
+                blob = os.path.join(root, "work", "blob.onnx")
+                os.replace(mpath, blob)
+                os.symlink(os.path.join("..", "work", "blob.onnx"), mpath)
+                if how == "model_file_symlink":
+                    arg = mpath
+                else:
+                    os.chdir(base)
+                    arg = "model.onnx"
             else:
                 os.chdir(root)
                 arg = "base/model.onnx"
@@ -318,39 +408,33 @@ def execute(case):
             label = "load:" + how + ":" + WHERES[case.get("where", 0) % len(WHERES)]
             eff_base = base  # the model's directory, whatever the spelling
             classes.append(how)
-        allowed, resolved = oracle_allowed(eff_base if mode == "load" else os.path.abspath(eff_base), loc)
+        eff_abs = eff_base if mode == "load" else os.path.abspath(eff_base)
+        allowed, resolved = oracle_allowed(eff_abs, loc)
         lexical_escape = not os.path.normpath(os.path.join(base, loc)).startswith(base + os.sep) or os.path.isabs(loc)
         via_link = resolved is not None and str(resolved) != os.path.normpath(os.path.join(base, loc))
         nontrivial = lexical_escape or via_link or (mode == "read" and BASES[case["base"] % len(BASES)] != "abs") or (mode == "load" and LOADS[case["how"] % len(LOADS)] != "absolute")
+        site = "read"
+        if mode == "load":
+            wh = WHERES[case.get("where", 0) % len(WHERES)]
+            site = "load" if wh == "main_initializer" else f"load@{wh}"
+        elif "pre" in case and PRE[case.get("pre", 0) % len(PRE)] != "none":
+            site = "read-after-rebase"
         got = None
         try:
             got = read_via(ir, t, case["entry"] if mode == "read" else case["entry"] % 5, tmp)
             classes.append("returned")
         except Exception as e:
             classes.append("raised")
-        if got is not None and len(got) > 0 and got[:length] == HARMLESS[off: off + length]:
-            classes.append("bytes_of_the_earlier_harmless_base")  # cached from the first, legitimate read: not an escape
-        elif got is not None and len(got) > 0:
-            if not allowed:
-                which = [p for p, data in canaries.items() if data[off: off + length] == got[:length]]
-                where = "outside" if which and not which[0].startswith(base + os.sep) else "inside-but-forbidden"
-                kind = _why(eff_base if mode == "load" else os.path.abspath(eff_base), loc, resolved)
-                site = "read"
-                if mode == "load":
-                    wh = WHERES[case.get("where", 0) % len(WHERES)]
-                    site = "load" if wh == "main_initializer" else f"load@{wh}"
-                elif "pre" in case and PRE[case.get("pre", 0) % len(PRE)] != "none":
-                    site = "read-after-rebase"
-                fails.append((f"escape/{site}/{kind}", f"{label}: location {loc!r} with base {eff_base!r} returned bytes {got[:16]!r} of {which[:1]} ({where}); resolved target {resolved}"))
-            else:
-                exp = open(resolved, "rb").read()[off: off + length]
-                if got[:length] != exp:
-                    fails.append(("wrong-bytes", f"{label}: location {loc!r}: returned {got[:16]!r} but the file holds {exp!r}"))
-        if got is None and allowed and mode == "read" and not lexical_escape:
-            # availability (reported separately): plain inside files must be readable
-            plain = loc in ("in.bin", "sub/in2.bin", "./in.bin", "sub/../in.bin")
-            if plain:
-                fails.append(("availability/plain-inside-file-rejected", f"{label}: readable inside file {loc!r} (base {eff_base!r}) was rejected"))
+        judge(got, loc, eff_abs, label, site, availability=(mode == "read"))
+        # the same tensor object is read again, through other entry points
+        for ai, a in enumerate(case.get("again") or []):
+            got2 = None
+            try:
+                got2 = read_via(ir, t, a % 5, tmp)
+            except Exception:
+                pass
+            classes.append("read_again_after_" + ("rejection" if got is None else "success") + (":returned" if got2 is not None else ":raised"))
+            judge(got2, loc, eff_abs, f"{label}, then {ENTRIES[a % 5]} on the same tensor", site + "+again")
     except Exception as e:
         import traceback
 
